@@ -1,6 +1,7 @@
 package props
 
 import (
+	"sync"
 	"fmt"
 	"go/ast"
 	"go/token"
@@ -112,6 +113,9 @@ func init() {
 // constructed from the specification term directly.
 func (c *Ctx) valueHook(p *sx.Path, fn *ssa.Function, args []sx.Val, site ssa.Instruction) (sx.Val, bool) {
 	name := sx.FuncName(fn)
+	if strings.HasPrefix(name, "expr.ConstUint[") {
+		return c.constUintByContract(p, fn, args)
+	}
 	const pre = "exprtransform/internal/expreval."
 	if !strings.HasPrefix(name, pre) {
 		return nil, false
@@ -168,4 +172,50 @@ func (c *Ctx) valueHook(p *sx.Path, fn *ssa.Function, args []sx.Val, site ssa.In
 		return &sx.Struct{F: []sx.Val{sl}}, true
 	}
 	return nil, false
+}
+
+var inlinedMu sync.Mutex
+
+// constUintByContract is the contract of expr.ConstUint (pkg/expr/
+// contracts_verif.go, proved for every integer type and constant length
+// under property C27) in executable form: the result is the little-endian
+// value of the low sizeof(T) bytes, and it fits iff every higher byte is zero.
+func (c *Ctx) constUintByContract(p *sx.Path, fn *ssa.Function, args []sx.Val) (sx.Val, bool) {
+	st, ok := args[0].(*sx.Struct)
+	if !ok {
+		return nil, false
+	}
+	sl, ok := st.F[0].(sx.Slice)
+	if !ok {
+		return nil, false
+	}
+	n, okn := sl.Len.Uint64()
+	if !okn || n == 0 || sl.Obj == 0 {
+		return nil, false
+	}
+	if _, ok := c.Contracts["expr.ConstUint"]; !ok {
+		return nil, false
+	}
+	rt := fn.Signature.Results().At(0).Type()
+	bits := sx.SortOf(rt).W
+	size := bits / 8
+	els := p.SliceElems(sl)
+	var val *smt.Term
+	fits := smt.True
+	for i, e := range els {
+		b := e.(*smt.Term)
+		if i < size {
+			if val == nil {
+				val = b
+			} else {
+				val = smt.Concat(b, val)
+			}
+		} else {
+			fits = smt.And(fits, smt.Eq(b, smt.BVU(0, 8)))
+		}
+	}
+	inlinedMu.Lock()
+	c.Inlined["contract of expr.ConstUint (C27) at call sites"] = true
+	inlinedMu.Unlock()
+	return sx.Tuple{smt.Resize(val, bits), fits}, true
 }
